@@ -151,7 +151,7 @@ Proof.
     try (apply same_marks; apply same_refl).
   - apply lcp_apply_marks. apply fsm_input_ok.
   - destruct x; try (apply same_marks; apply same_refl).
-    + destruct (in_net (ph (ms m))); apply same_marks; [apply same_emit|apply same_refl].
+    + destruct (fs (lcp (ms m))); apply same_marks; try apply same_refl; apply same_emit.
     + apply same_marks. apply ncp_apply_same.
     + apply same_marks. apply ncp_apply_same.
     + apply lcp_apply_marks. apply fsm_input_ok.
